@@ -138,7 +138,7 @@ def gen_cases(tier, seed):
         top_attrs = _rand_ns_attrs(rng)
         for rs in rulesets:
             for mode in ('include', 'exclude'):
-                target = rng.choice([None, None, 'tn', 'tn.sub', 'ab'])
+                target = rng.choice([None, None, 'tn', 'tn.sub', 'ab', 'emp.sub', 'keep.sub'])
                 opts = {}
                 if rng.random() < 0.4:
                     opts = rng.choice([{'help': 'override'}, {'required': False}, {'dynamic': True}, {'populate_defaults': False},
@@ -199,6 +199,10 @@ def _ns_attrs(ns):
             'populate_defaults': ns.populate_defaults, 'default': ns.default, 'name': ns.name}
 
 
+def _ns_attrs_of(desc, name):
+    return desc[name][1] if name in desc else None
+
+
 def _names(tree, prefix=''):
     out = set()
     for name, d in tree.items():
@@ -244,6 +248,9 @@ def run_case(case):
     if case['pre']:
         (dest.input if kind == 'in' else dest.output)('pre_existing', help='mine')
         (dest.input if kind == 'in' else dest.output)('keep.me', required=False)
+        # a namespace of the destination's own that has no ports yet, with properties that are not the defaults
+        droot['emp'] = PortNamespace('emp', dynamic=True, help='mine-emp', required=False)
+    emp_before = droot['emp'] if case['pre'] else None
     pre_desc = describe(droot)
     expose = dest.expose_inputs if kind == 'in' else dest.expose_outputs
     obs = {'exposes': 1, 'include_cases': 0, 'exclude_cases': 0, 'prefix_sibling_cases': 0, 'nested_rule_cases': 0, 'attr_checks': 0,
@@ -344,9 +351,16 @@ def run_case(case):
     # other destination ports stay in place
     if case['pre']:
         now = describe(droot)
+        if 'emp' not in droot or droot['emp'] is not emp_before or _ns_attrs(droot['emp']) != _ns_attrs_of(pre_desc, 'emp'):
+            viol.append(V('preexisting-changed', 'preexisting-changed:empty-namespace', 'the destination\'s own (empty) namespace emp was replaced or lost its '
+                          'properties: %r, before %r (target %s)' % (_ns_attrs(droot['emp']) if 'emp' in droot else None, _ns_attrs_of(pre_desc, 'emp'), case['target'])))
         for name in ('pre_existing', 'keep'):
             if name not in exp_names or case['target']:
-                if now.get(name) != pre_desc.get(name) and not (name in exp_names and not case['target']):
+                a, b = now.get(name), pre_desc.get(name)
+                if name == 'keep' and a is not None and (case['target'] or '').startswith('keep.'):
+                    # the target lies below it: it keeps its properties and its own port, and gains the target namespace
+                    a = [a[0], a[1], {k: v for k, v in a[2].items() if k != 'sub'}]
+                if a != b and not (name in exp_names and not case['target']):
                     viol.append(V('preexisting-changed', 'preexisting-changed', 'pre-existing destination port %s changed/removed' % name))
         obs['preexisting_kept'] = 1
     # independence: mutate the source, the destination must not change; then the other way round
